@@ -14,6 +14,9 @@ func (e *Engine) executable(fn *ssa.Function) bool {
 	if fn.Blocks == nil {
 		return false
 	}
+	if extraExecutableFn[fnKey(fn)] {
+		return true
+	}
 	pkg := fnPkgPath(fn)
 	if strings.HasPrefix(pkg, "github.com/cloudflare/pint") {
 		return true
@@ -33,6 +36,17 @@ func fnPkgPath(fn *ssa.Function) string {
 		return fn.Origin().Pkg.Pkg.Path()
 	case fn.Parent() != nil:
 		return fnPkgPath(fn.Parent())
+	}
+	// synthetic wrappers (pointer-receiver wrapper of a value method, instantiated generic methods): the package of
+	// the receiver's named type
+	if recv := fn.Signature.Recv(); recv != nil {
+		t := recv.Type()
+		if p, ok := t.(*types.Pointer); ok {
+			t = p.Elem()
+		}
+		if n, ok := t.(*types.Named); ok && n.Obj().Pkg() != nil {
+			return n.Obj().Pkg().Path()
+		}
 	}
 	return ""
 }
@@ -172,7 +186,9 @@ func (e *Engine) doCall(st *State, fr *Frame, dst *ssa.Call, cc *ssa.CallCommon,
 		setResult(st, r)
 		return nil
 	}
-	if e.InitMode && fn.Name() == "init" && !strings.HasPrefix(fnPkgPath(fn), "github.com/cloudflare/pint") {
+	// initialisers of foreign packages are skipped, except for packages that are executed from their SSA (their
+	// package-level variables must hold their real initial values)
+	if e.InitMode && fn.Name() == "init" && !strings.HasPrefix(fnPkgPath(fn), "github.com/cloudflare/pint") && !extraExecutable[fnPkgPath(fn)] {
 		setResult(st, nil)
 		return nil
 	}
@@ -282,9 +298,21 @@ var atomTolerant = map[string]bool{
 func (e *Engine) findCut(fn *ssa.Function) *ssa.Function {
 	if e.cuts == nil {
 		e.cuts = map[string]*ssa.Function{}
-		for name, m := range e.L.Main.Members {
-			if f, ok := m.(*ssa.Function); ok && strings.HasPrefix(name, "verifStub_") {
-				e.cuts[strings.TrimPrefix(name, "verifStub_")] = f
+		// the harness package first; auxiliary harness files may live in other pint packages (Spec.Aux)
+		pkgs := []*ssa.Package{e.L.Main}
+		for _, p := range e.L.Prog.AllPackages() {
+			if p != e.L.Main && strings.HasPrefix(p.Pkg.Path(), "github.com/cloudflare/pint") {
+				pkgs = append(pkgs, p)
+			}
+		}
+		for _, p := range pkgs {
+			for name, m := range p.Members {
+				if f, ok := m.(*ssa.Function); ok && strings.HasPrefix(name, "verifStub_") {
+					k := strings.TrimPrefix(name, "verifStub_")
+					if _, dup := e.cuts[k]; !dup {
+						e.cuts[k] = f
+					}
+				}
 			}
 		}
 	}
@@ -305,7 +333,8 @@ func (e *Engine) findCut(fn *ssa.Function) *ssa.Function {
 	if f, ok := e.cuts[key]; ok {
 		return f
 	}
-	if f, ok := e.cuts[fn.Name()]; ok && fn.Pkg == e.L.Main {
+	// plain name: a function of the package the stub itself lives in
+	if f, ok := e.cuts[fn.Name()]; ok && fn.Pkg != nil && fn.Pkg == f.Pkg && fn.Signature.Recv() == nil {
 		return f
 	}
 	return nil
@@ -776,6 +805,13 @@ func (e *Engine) builtin(st *State, fr *Frame, dst *ssa.Call, b *ssa.Builtin, cc
 			}
 		}
 		set(acc)
+	case "ssa:wrapnilchk":
+		// ssa:wrapnilchk(ptr, recvType, method): the nil check of a pointer-receiver wrapper around a value method
+		if p, ok := args[0].(PtrVal); ok && p.Obj == 0 {
+			e.fail(st, "panic", "value method called using nil pointer")
+			return nil
+		}
+		set(args[0])
 	case "print", "println":
 	default:
 		unsupported("builtin %s", b.Name())
